@@ -505,6 +505,22 @@ def _receiver_start(mask, dot):
                         break
                 j -= 1
             j -= 1
+            # turbofish `::<..>` right before the call parentheses
+            k = j
+            while k >= 0 and mask[k] in ' \t\n':
+                k -= 1
+            if k >= 0 and mask[k] == '>' and (k == 0 or mask[k - 1] != '-'):
+                d2 = 0
+                while k >= 0:
+                    if mask[k] == '>' and mask[k - 1] != '-':
+                        d2 += 1
+                    elif mask[k] == '<':
+                        d2 -= 1
+                        if d2 == 0:
+                            break
+                    k -= 1
+                if k >= 2 and mask[k - 2:k] == '::':
+                    j = k - 3
             continue
         if c.isalnum() or c == '_':
             while j >= 0 and (mask[j].isalnum() or mask[j] == '_'):
@@ -533,6 +549,8 @@ R6_TAILS = [
     (r'\.\s*iter\s*\(\s*\)\s*\.\s*take_while\s*\(', 'vf_prefix_len', r'\)\s*\.\s*count\s*\(\s*\)'),
     (r'\.\s*windows\s*\(\s*2\s*\)\s*\.\s*any\s*\(', 'vf_adjacent_any'),
     (r'\.\s*iter\s*\(\s*\)\s*\.\s*any\s*\(', 'vf_any'),
+    (r'\.\s*into_iter\s*\(\s*\)\s*\.\s*all\s*\(', 'vf_all_owned'),
+    (r'\.\s*into_iter\s*\(\s*\)\s*\.\s*filter_map\s*\(', 'vf_filter_map_owned', r'\)\s*\.\s*collect\s*\(\s*\)'),
 ]
 
 
@@ -562,6 +580,37 @@ def r6_tails(text, notes):
             notes.add('R6', '`%s%s..` lowered to %s(%s, <closure verbatim>)' % (recv, ' '.join(text[m.start():m.start()].split()), helper, recv))
             changed = True
             break
+    # `X.choose(&mut rand::thread_rng())` -> `vf_choose(X)` ; `E.chunks(K)` -> `vf_chunks(E.as_slice(), K)`
+    mask = mask_text(text)
+    m = re.search(r'\.\s*choose\s*\(\s*&mut\s+rand::thread_rng\s*\(\s*\)\s*\)', mask)
+    if m:
+        rs = _receiver_start(mask, m.start())
+        recv = text[rs:m.start()].strip()
+        text = text[:rs] + 'vf_choose(%s)' % recv + text[m.end():]
+        notes.add('R6', '`<vec>.choose(&mut rand::thread_rng())` lowered to vf_choose(<vec>)')
+    mask = mask_text(text)
+    m = re.search(r'\.\s*chunks\s*\(', mask)
+    if m:
+        par = m.end() - 1
+        close = match_close(mask, par)
+        rs = _receiver_start(mask, m.start())
+        recv = text[rs:m.start()].strip()
+        k = text[par + 1:close].strip()
+        text = text[:rs] + 'vf_chunks(%s.as_slice(), %s)' % (recv, k) + text[close + 1:]
+        notes.add('R6', '`%s.chunks(..)` lowered to vf_chunks(%s.as_slice(), ..)' % (recv, recv))
+    # `A.iter().chain(B).collect::<HashSet<_>>()` -> `vf_ref_set2(A, B)`
+    mask = mask_text(text)
+    m = re.search(r'\.\s*iter\s*\(\s*\)\s*\.\s*chain\s*\(', mask)
+    if m:
+        par = m.end() - 1
+        close = match_close(mask, par)
+        m3 = re.match(r'\)\s*\.\s*collect\s*::\s*<\s*HashSet\s*<\s*_\s*>\s*>\s*\(\s*\)', mask[close:])
+        if m3:
+            rs = _receiver_start(mask, m.start())
+            a = text[rs:m.start()].strip()
+            b = text[par + 1:close].strip()
+            text = text[:rs] + 'vf_ref_set2(%s, %s)' % (a, b) + text[close + m3.end():]
+            notes.add('R6', '`%s.iter().chain(%s).collect::<HashSet<_>>()` lowered to vf_ref_set2' % (a, b))
     # `PREFIX.chain(B).collect::<Vec<_>>()` -> `vf_concat(PREFIX.collect::<Vec<_>>(), B)`
     again = True
     while again:
@@ -635,11 +684,49 @@ def r6_tails(text, notes):
     return text
 
 
+def r15_closure_patterns(text, notes):
+    """R15: closure with a tuple-pattern parameter `|(a, b)| BODY` -> `|p__| { let (a, b) = p__; BODY }`"""
+    n = 0
+    while True:
+        mask = mask_text(text)
+        m = re.search(r'\|\s*(\([^|()]*\))\s*\|', mask)
+        if not m:
+            break
+        pat = text[m.start(1):m.end(1)]
+        bs = _next_sig(mask, m.end())
+        if mask[bs] == '{':
+            be = match_close(mask, bs) + 1
+            body = text[bs + 1:be - 1]
+        else:
+            depth = 0
+            j = bs
+            while j < len(mask):
+                c = mask[j]
+                if c in OPEN:
+                    depth += 1
+                elif c in CLOSE:
+                    if depth == 0:
+                        break
+                    depth -= 1
+                elif c == ',' and depth == 0:
+                    break
+                j += 1
+            be = j
+            body = text[bs:be]
+        var = 'p__%d' % n
+        n += 1
+        text = text[:m.start()] + '|%s| { let %s = %s; %s }' % (var, pat, var, body.strip()) + text[be:]
+        notes.add('R15', 'closure tuple-pattern parameter %s bound by a let inside the body' % pat)
+    return text
+
+
 def eta_expand_paths(text, notes):
-    """R6 (part): `.map(ToOwned::to_owned)` -> `.map(|x| x.to_owned())`"""
+    """R6 (part): a function path used as a closure is eta-expanded: `.map(ToOwned::to_owned)` -> `.map(|x| { x.to_owned() })`,
+    `.map(Pack::pack)` -> `.map(|x| { Pack::pack(x) })`"""
     new = re.sub(r'\.map\(\s*ToOwned::to_owned\s*\)', '.map(|x__| { x__.to_owned() })', text)
+    new = re.sub(r'\.map\(\s*([A-Z][A-Za-z0-9_]*::[a-z_][A-Za-z0-9_]*)\s*\)', r'.map(|x__| { \1(x__) })', new)
     if new != text:
-        notes.add('R6', 'eta-expanded ToOwned::to_owned')
+        notes.add('R6', 'eta-expanded a function path used as closure')
     return new
 
 
@@ -661,6 +748,8 @@ def apply_rules(text, rules, notes, extra_log_macros=()):
             text = r8b_pub_fields(text, notes)
         elif r == 'R10':
             text = r10_enumerate(text, notes)
+        elif r == 'R15':
+            text = r15_closure_patterns(text, notes)
         elif r == 'R6t':
             text = r6_tails(text, notes)
         elif r == 'R6w':
@@ -672,4 +761,4 @@ def apply_rules(text, rules, notes, extra_log_macros=()):
     return text
 
 
-DEFAULT_RULES = ['R1', 'R2', 'R7', 'R8', 'R3', 'R4', 'R10', 'R6w', 'R6t', 'R6e']
+DEFAULT_RULES = ['R1', 'R2', 'R7', 'R8', 'R3', 'R4', 'R10', 'R6w', 'R6t', 'R6e', 'R15']
